@@ -98,7 +98,8 @@ Proof. rewrite ann_map_map. reflexivity. Qed.
 
 (* History theorem (a): an annotation object built under configuration A and judged by a validator for B gets the
    verdict of a freshly built object, provided re-identification is clean (C13-F6 excluded) and either the
-   tags are re-identified before the character check (fix-F5) or that check does not see a difference. *)
+   tags are re-identified before the character check (the code since fix commit 02f8597) or that check does not
+   see a difference (needed only for the behaviour before that commit). *)
 Theorem cross_validation_fresh cA cB a :
   CleanReident cA cB a ->
   (fixed5 = true \/ R1 (c_flag cB) (ann_map (fun t => fst (resolve_tag cA t)) a)
@@ -126,7 +127,7 @@ Qed.
 
 End H.
 
-(* ------------------------------------------------------------------ witnesses for (a): the code as it is *)
+(* ------------------------------------------------------------------ witnesses for (a) *)
 From HV Require Import Model.NamespaceX.
 Local Open Scope N_scope.
 
@@ -148,8 +149,9 @@ Definition s_ext : sch := toy_sch toy_find_ext None true (8, 3, 0)%nat true.
 
 Definition s_tl_r_ab : str := [116; 108; 58; 82; 47; 97; 32; 98].          (* "tl:R/a b" *)
 
-(* C13-F5: "tl:R/a b" built where tl: is loaded, judged where it is not: the blank goes unnoticed; with the tags
-   re-identified first (fix-F5) the verdict is that of a fresh object *)
+(* C13-F5, REPAIRED by fix commit 02f8597.  Record of the behaviour before it (fixed5 = false): "tl:R/a b" built where
+   tl: is loaded, judged where it is not: the blank went unnoticed.  Third conjunct: the code as it is now
+   (fixed5 = true) gives the verdict of a fresh object on this witness. *)
 Lemma cross_refuted_char_check_before_reidentification :
   let cA := cfg_group [([], s_ext); (ns_tl, s_ext)] in
   let cB := cfg_group [([], s_ext)] in
@@ -158,7 +160,7 @@ Lemma cross_refuted_char_check_before_reidentification :
   /\ x_cross true cA cB a = x_fresh cB a.
 Proof. repeat split; vm_compute; reflexivity. Qed.
 
-(* C13-F6: "I/O" is a full tag (short form "O") under A, and "I" + extension "/O" under B, where "O" alone is
+(* C13-F6 (OPEN, in both modes): "I/O" is a full tag (short form "O") under A, and "I" + extension "/O" under B, where "O" alone is
    unknown: re-identification starts from the short form "O" and fails, a fresh object is clean *)
 Definition s_I_O : str := [73; 47; 79].
 Definition s_O : str := [79].
@@ -273,3 +275,140 @@ Proof.
   unfold same_but_ns, set_ns_l in HL. injection HL as _ _ _ _ _ Ht. symmetry. exact Ht.
 Qed.
 End Merged.
+
+(* ------------------------------------------------------------------ audit follow-up *)
+
+(* (a) for the code as it is now (fixed5 = true, fix commit 02f8597 in /repo): one hypothesis is left, the absence
+   of the open finding C13-F6 *)
+Theorem cross_validation_fresh_now isalpha_c isprint_c foldc titlec lowerc fixed R1 R2 R3 cA cB a :
+  CleanReident cA cB a ->
+  verdict_cross isalpha_c isprint_c foldc titlec lowerc fixed R1 R2 R3 true cA cB a =
+  verdict isalpha_c isprint_c foldc titlec lowerc fixed R1 R2 R3 cB a.
+Proof.
+  intro H.
+  exact (cross_validation_fresh isalpha_c isprint_c foldc titlec lowerc fixed R1 R2 R3 true cA cB a H (or_introl eq_refl)).
+Qed.
+
+(* RUniform is not an empty assumption: two classes of rules that satisfy it *)
+(* 1. every rule that reads only entry, remainder and body of the tags (the namespace erased) *)
+Lemma RUniform_erased (f : bool -> ann rtag -> list code) : RUniform (fun b t => f b (ann_map (set_ns []) t)).
+Proof.
+  intros b p t _ _. rewrite ann_map_map. reflexivity.
+Qed.
+
+(* 2. a rule that DOES read the namespace, through equality of whole tag texts: "the same tag text twice" *)
+Definition org_text (r : rtag) : str := rt_ns r ++ rt_body r.
+Definition repeated_text_rule : bool -> ann rtag -> list code :=
+  fun _ t => if has_dup (map org_text (ann_tags t)) then [OtherCode 2 true] else [].
+
+Lemma str_eqb_app_same p x y : str_eqb (p ++ x) (p ++ y) = str_eqb x y.
+Proof. induction p as [|c p IH]; simpl; [reflexivity | rewrite N.eqb_refl; exact IH]. Qed.
+
+Lemma mem_str_app_same p x l : mem_str (p ++ x) (map (app p) l) = mem_str x l.
+Proof. induction l as [|y l IH]; simpl; [reflexivity | rewrite str_eqb_app_same, IH; reflexivity]. Qed.
+
+Lemma has_dup_app_same p l : has_dup (map (app p) l) = has_dup l.
+Proof. induction l as [|x l IH]; simpl; [reflexivity | rewrite mem_str_app_same, IH; reflexivity]. Qed.
+
+Lemma RUniform_repeated_text : RUniform repeated_text_rule.
+Proof.
+  intros b p t _ Hns. unfold repeated_text_rule. rewrite ann_tags_map, map_map.
+  assert (E : map (fun r => org_text (set_ns p r)) (ann_tags t) = map (app p) (map org_text (ann_tags t))).
+  { rewrite map_map. apply map_ext_Forall. eapply Forall_impl; [|exact Hns]. intros r Hr. simpl in Hr.
+    unfold org_text, set_ns. simpl. rewrite Hr. reflexivity. }
+  rewrite E, has_dup_app_same. reflexivity.
+Qed.
+
+(* partner merge: if no duplicate was recorded, EVERY ordinary standard name resolves as before -- unconditional
+   in the library's entries (names ending in "#" are covered only by merge_keeps_standard and the bundled data) *)
+Corollary standard_kept_if_no_dups es B k x v :
+  KeyInv B -> km_get k (t_keys B) = Some v -> rev k = x :: tl (rev k) -> x <> hash_comp ->
+  t_dups (fold_left add_tag es B) = [] ->
+  km_get k (t_keys (fold_left add_tag es B)) = Some v.
+Proof.
+  intros HI HB Hr Hx Hd. destruct (standard_kept_or_clash es B k x v HI HB Hr Hx) as [H|H]; [exact H | contradiction].
+Qed.
+
+(* history (b): non-vacuity and contrast *)
+Local Open Scope N_scope.
+Definition s_E : str := [69].
+Definition uniq_sch : sch :=
+  mkSch toy_find_all (fun _ => None) (fun a => match a with Unique => [s_E] | Required => [] end)
+        None true (8, 3, 0)%nat true.
+Definition hist_ops : list op :=
+  [OpValidate (AGrp [ATag s_E; ATag s_E]); OpPrefix 0 [116; 108];
+   OpValidate (AGrp [ATag (ns_tl ++ s_E); ATag (ns_tl ++ s_E)]); OpPrefix 0 [116; 49];
+   OpValidate (AGrp [ATag (ns_tl ++ s_E)])].
+Definition hist_G : hgroup := [mkH [] uniq_sch (fun _ => None)].
+Definition always_fill : hgroup -> ann str -> bool := fun _ _ => true.
+
+Definition x_h_run := h_run x_isalpha x_isprint lower_ascii upper_ascii lower_ascii true no_rules no_rules no_rules always_fill.
+Definition x_s_run := s_run x_isalpha x_isprint lower_ascii upper_ascii lower_ascii true no_rules no_rules no_rules.
+Definition x_h_run_stale :=
+  h_run_stale x_isalpha x_isprint lower_ascii upper_ascii lower_ascii true no_rules no_rules no_rules always_fill.
+
+(* a freshly loaded group satisfies CacheOK; on this history (validate, re-prefix to "tl:", validate, refused
+   re-prefix "t1", validate) the modelled code gives the memory-less verdicts, TAG_NOT_UNIQUE included ... *)
+Lemma reprefix_history_nonvacuous :
+  CacheOK hist_G /\
+  x_h_run hist_G hist_ops = [Some [TagNotUnique]; None; Some [TagNotUnique]; None; Some []] /\
+  x_s_run (strip hist_G) hist_ops = [Some [TagNotUnique]; None; Some [TagNotUnique]; None; Some []].
+Proof. split; [exact (fresh_cache_ok [([], uniq_sch)]) | split; vm_compute; reflexivity]. Qed.
+
+(* ... while the variant that caches the formatted names (seeded change C13/4) loses TAG_NOT_UNIQUE after the
+   re-prefix: the history theorem is false of it *)
+Lemma stale_name_cache_refuted :
+  CacheOK hist_G /\ x_h_run_stale hist_G hist_ops <> x_s_run (strip hist_G) hist_ops
+  /\ x_h_run_stale hist_G hist_ops = [Some [TagNotUnique]; None; Some []; None; Some []].
+Proof.
+  split; [exact (fresh_cache_ok [([], uniq_sch)]) | split; [vm_compute; discriminate | vm_compute; reflexivity]].
+Qed.
+
+(* ------------------------------------------------------------------ construction routes (load_schema(..., schema=lib)) *)
+Local Close Scope N_scope.
+Lemma load_file_keeps_ns isa rp f first L : load_file isa rp f (Some first) = LOk L -> l_ns L = l_ns first.
+Proof.
+  unfold load_file. destruct (l_with_std first) as [|c w]; [discriminate|].
+  destruct (negb (str_eqb (f_with_std f) (c :: w))); [discriminate|].
+  destruct (add_nodes _ _ _ _ _ _ _ _) as [T|]; simpl; [|discriminate].
+  intro H. injection H as <-. reflexivity.
+Qed.
+
+Lemma lschema_eta L : mkL (l_ns L) (l_library L) (l_version L) (l_with_std L) (l_merged L) (l_elem_domain L) (l_table L) = L.
+Proof. destruct L; reflexivity. Qed.
+
+(* merging through the public `schema=` parameter WITHOUT repeating the namespace keeps the namespace ... *)
+Theorem merge_route_keeps_prefix isa fixed rp f first L :
+  load_schema_pub isa fixed rp f [] (Some first) = LOk L -> l_ns L = l_ns first.
+Proof.
+  unfold load_schema_pub. destruct (load_file isa rp f (Some first)) as [L0|] eqn:E; [|discriminate]. simpl.
+  intro H. injection H as <-. exact (load_file_keeps_ns isa rp f first L0 E).
+Qed.
+
+(* ... and gives exactly the schema that _load_schema_version builds for "ns:v0,...,v" at the same step *)
+Theorem merge_route_equals_version_list isa fixed rp v f ns first L :
+  lookup v rp = Some f ->
+  (ns = [] /\ l_ns first = [] \/ set_schema_prefix isa fixed ns = Ok (l_ns first) /\ ns <> []) ->
+  load_sub isa fixed rp v ns (Some first) = LOk L ->
+  load_schema_pub isa fixed rp f [] (Some first) = LOk L.
+Proof.
+  intros Hl Hns. unfold load_sub, load_schema_pub. destruct v as [|c v']; [discriminate|].
+  destruct (negb (valid_version _)); [discriminate|]. rewrite Hl.
+  destruct (load_file isa rp f (Some first)) as [L0|] eqn:E; [|discriminate]. simpl.
+  pose proof (load_file_keeps_ns isa rp f first L0 E) as Hk.
+  destruct Hns as [[-> Hf] | [Hs Hne]].
+  - intro H. exact H.
+  - destruct ns as [|d ns']; [contradiction|]. rewrite Hs. intro H. injection H as <-.
+    rewrite <- Hk. rewrite lschema_eta. reflexivity.
+Qed.
+
+(* repeating the namespace on the merge step gives the same result as not repeating it *)
+Theorem merge_route_repeat_same isa fixed rp f ns first L :
+  set_schema_prefix isa fixed ns = Ok (l_ns first) -> ns <> [] ->
+  load_schema_pub isa fixed rp f [] (Some first) = LOk L ->
+  load_schema_pub isa fixed rp f ns (Some first) = LOk L.
+Proof.
+  intros Hs Hne. unfold load_schema_pub. destruct (load_file isa rp f (Some first)) as [L0|] eqn:E; [|discriminate]. simpl.
+  pose proof (load_file_keeps_ns isa rp f first L0 E) as Hk.
+  intro H. injection H as <-. destruct ns as [|d ns']; [contradiction|]. rewrite Hs, <- Hk, lschema_eta. reflexivity.
+Qed.
